@@ -32,5 +32,21 @@ Definition check_one (d k r hm p : nat) : bool :=
   | _ => false
   end.
 
+(* the same for all partition counts 1..rem at once: place the partitions one after the other and test
+   after each one (the fill phase for p partitions is a prefix of the fill phase for more) *)
+Fixpoint walk (d r : nat) (pid : N) (rem : nat) (ls : loads) : bool :=
+  match rem with
+  | O => true
+  | S rem' =>
+      match fill_slots pid [] 0 r ls [] with
+      | Ok (ls1, nl) =>
+          nodup_nat (map (fun x => canon_idx x mod d) nl) && balanced ls1 && walk d r (pid + 1) rem' ls1
+      | _ => false
+      end
+  end.
+
+Definition check_walk (pmax d k r hm : nat) : bool :=
+  walk d r 0 pmax (init_loads (N.of_nat hm) (N.of_nat (d * k)) 0 (canon_ring (d * k))).
+
 Definition check_dkr (pmax d k r : nat) : bool :=
-  forallb (fun hm => forallb (fun p => check_one d k r hm p) (seq 1 pmax)) (seq 0 (d * k)).
+  forallb (fun hm => check_walk pmax d k r hm) (seq 0 (d * k)).
